@@ -166,6 +166,25 @@ ReadBlock(b, nm) ==
      ELSE "exact"
 
 \* ---------------------------------------------------------------------------------------------
+\* HET / BET table compression (builder.rs:write_het_table / write_bet_table vs tables/het.rs, bet.rs:read), V3/V4 with
+\* compress_tables(true).  n = table bytes behind the 12-byte extended header, c = codec output length.
+\* The builder calls compress() -- which already returns either the raw bytes or <<m>> \o payload -- and then prepends
+\* the method byte AGAIN.  The reader takes the table as compressed iff the declared size exceeds the stored size, and
+\* then treats byte 0 as the method and the rest as payload.
+TableStoredLen(n, c) == 1 + OutLen(n, c)
+TableReaderSaysCompressed(n, c) == n > TableStoredLen(n, c)
+\* "ignored": decode error, the table is dropped and lookups fall back to the classic tables (harmless);
+\* "misaligned": the stored bytes (method byte + raw table) are parsed as the table, one byte off: header fields are
+\*               garbage (e.g. flag_count -> a multi-gigabyte Vec::with_capacity);  "exact" would need one prefix only
+TableOutcome(n, c) == IF TableReaderSaysCompressed(n, c)
+                      THEN (IF StoresRaw(n, c) THEN "garbage" ELSE "ignored")          \* payload = <<m>> \o real payload
+                      ELSE (IF StoresRaw(n, c) THEN "misaligned" ELSE "misaligned")
+DevTableCompression(n, c) == TableOutcome(n, c) # "exact"                             \* F-C01-e: always
+\* the dangerous half: the codec did not shrink the table, or shrank it by a single byte (then the second prefix
+\* brings the stored size back to n and the reader takes <<m, m>> \o payload for the raw table)
+TableMisaligned(n, c) == StoresRaw(n, c) \/ c = n - 2
+
+\* ---------------------------------------------------------------------------------------------
 \* state machine
 
 VARIABLES vph,      \* "writing" | "hashing" | "built" | "failed"
